@@ -53,8 +53,10 @@ def full_obs(o):
     return out
 
 
-def dump_with_h(o):
-    """PDB text of the only conformation including the hydrogens the program built"""
+def dump_with_h(o, original=None):
+    """PDB text of the only conformation including the hydrogens the program built; residues in the order of the original
+    text when that is given (the program sorts its atoms by chain code, which need not be the file order - and the first
+    residue of a file is always a chain start)"""
     from propka.atom import PDB_LINE_FMT1
     from propka.lib import make_tidy_atom_label
     conf = o.mol.conformations[o.mol.conformation_names[0]]
@@ -62,7 +64,14 @@ def dump_with_h(o):
     rkey = lambda a: (a.chain_id, a.res_num, a.icode)
     nplus = {rkey(a) for a in conf.atoms if a.terminal == 'N+'}
     prev = None
-    for i, a in enumerate(conf.atoms):
+    atoms = list(conf.atoms)
+    if original is not None:
+        order = {}
+        for l in pdbgen.lines_of(original):
+            if pdbgen.is_atom(l):
+                order.setdefault((l[21] if l[21] != ' ' else '_', int(l[22:26]), l[26]), len(order))
+        atoms.sort(key=lambda a: order.get(rkey(a), len(order)))     # stable: the order inside a residue stays the program's
+    for i, a in enumerate(atoms):
         # the parser starts a new N-terminus only after TER / a terminal oxygen, not at a chain change: write TER exactly
         # in front of the residues whose nitrogen the original run tagged N+
         if prev is not None and rkey(a) != prev and rkey(a) in nplus:
@@ -238,7 +247,7 @@ def run(ctx):
                     fbad.append((name, d[:3], pdbgen.text(ml), text))
         # keep-protons: supply the program's own hydrogens, then move
         if not hetero and len(base.mol.conformation_names) == 1:
-            hl = dump_with_h(base)
+            hl = dump_with_h(base, text)
             b2 = observe.run(pdbgen.text(hl), ["-k"], want_text=False)
             if not b2.error:
                 ml, (m, t) = random_motion(rnd, hl, straddle=rnd.random() < 0.5)
